@@ -210,14 +210,17 @@ package mat
 //@   ensures m.m == rows && m.n == cols && len(m.v) == rows * cols
 
 // A decoded matrix is one a constructor could have produced: positive dimensions and exactly rows*cols entries, taken
-// from the payload; anything else is rejected.
+// from the payload (the matrix is built only once the declared dimensions are positive and their true product equals
+// the number of entries carried); anything else is rejected.
 //@ func (*Matrix).UnmarshalCBOR
 //@   property C12
 //@   ensures err == nil ==> m.m > 0 && m.n > 0 && len(m.v) == m.m * m.n
+//@   assert before "m.init(dto.Rows, dto.Cols)": dto.Rows > 0 && dto.Cols > 0 && len(dto.Data) == dto.Rows * dto.Cols
 //@   loop range(dto.Data)
 //@     invariant true
 //@ func (*ModuleValuedMatrix).UnmarshalCBOR
 //@   property C12
 //@   ensures err == nil ==> m.m > 0 && m.n > 0 && len(m.v) == m.m * m.n
+//@   assert before "m.init(dto.Rows, dto.Cols)": dto.Rows > 0 && dto.Cols > 0 && len(dto.Data) == dto.Rows * dto.Cols
 //@   loop range(dto.Data)
 //@     invariant true
